@@ -65,6 +65,8 @@ type Harness struct {
 	// labels whose violation is a finding recorded in known_findings.json
 	Demonstrates []string `json:"demonstrates"`
 	Concurrent   bool     `json:"concurrent"`
+	// counterexamples cannot be reproduced natively (virtual clock): confirmed by engine re-execution
+	EngineConfirm bool `json:"engine_confirm"`
 	Vacuity      bool     `json:"vacuity"` // twin whose assert(false) must be violated
 }
 
@@ -660,7 +662,7 @@ func check(id, tier string) int {
 				rs := replayScript{Property: id, Unit: u.Name, Entry: h.Entry, Label: v.Label, Kind: v.Kind, Msg: v.Msg, Params: b.Params, Script: v.Script, Env: u.Env, Sched: v.Sched, Trace: v.Trace, Tier: tier}
 				p := filepath.Join(replayDir, fmt.Sprintf("%s-%s-%s.json", h.Entry, sanitize(v.Label), scriptHash(rs)))
 				writeJSON(p, rs)
-				if h.Concurrent || v.Kind == "deadlock" || v.Kind == "race" {
+				if h.Concurrent || h.EngineConfirm || v.Kind == "deadlock" || v.Kind == "race" {
 					// confirmed by concrete re-execution under the recorded schedule inside the engine
 					ok := reexec(prog, opts, v)
 					if !ok {
@@ -924,7 +926,13 @@ func replay(path string) int {
 			fmt.Println(err)
 			return 2
 		}
-		if rs.Kind == "deadlock" || rs.Kind == "race" || len(rs.Sched) > 0 {
+		engineConfirm := false
+		for hi := range u.Harnesses {
+			if u.Harnesses[hi].Entry == rs.Entry && (u.Harnesses[hi].EngineConfirm || u.Harnesses[hi].Concurrent) {
+				engineConfirm = true
+			}
+		}
+		if rs.Kind == "deadlock" || rs.Kind == "race" || len(rs.Sched) > 0 || engineConfirm {
 			var h *Harness
 			for hi := range u.Harnesses {
 				if u.Harnesses[hi].Entry == rs.Entry {
